@@ -35,13 +35,10 @@ func (r *c17DagResolver) ResolvePublicKey(kid string, _ []hash.SHA256Hash) (cryp
 }
 
 func c17DagWorld() jose.World {
-	var algs []string
-	for _, a := range allowedAlgos {
-		algs = append(algs, a.String())
-	}
 	return jose.World{
 		KeyRef:  "kid-xor-jwk",
-		Allowed: algs,
+		Allowed: jose.RFC004Allowed, // the specification's list, not the code's
+
 		Kids: map[string]string{jose.Victim: "did:nuts:4tzMaWfpizVKeA8fscC3JTdWBc3asUWWMj5hUFHdWX3H#victim", jose.Attacker: "did:nuts:GvkzxsezHvEc8nGhgz6Xo3jbqkHwswLmWw3CYtCm7hAW#attacker",
 			"unknown": "did:nuts:7ULSAzCZbNzP34Z3MvRGzqfrcZLP7TPmkpAbCyYQoXkc#nobody"},
 		Header: jose.Header{
